@@ -95,8 +95,9 @@ def authored_triggers(spec):
     return out
 
 
-def c04_oracle(base, spec, out):
-    """None or a description of the first authored value that did not reach the file"""
+def c04_oracle(base, spec, out, keys=None):
+    """None or a description of the first authored value that did not reach the file; differences that are fully
+    explained by a RECORDED finding are not reported, their keys are added to `keys`"""
     tables = SC.spec_tables()
     vb, vo = SC.SpecView(base), SC.SpecView(out)
     auth = authored_triggers(spec)
@@ -158,10 +159,13 @@ def c04_oracle(base, spec, out):
         if op[0] == "upsert_units":
             for u in op[2]:
                 last[(op[1], u["id"])] = u
-    shared = {}
-    for (sec, uid), u in last.items():
-        for w in u["weapons"]:
-            shared.setdefault((sec, w[0]), set()).add((w[1], w[2]))
+    # a weapon's value is whatever the LAST authored setting that mentions it says
+    final_w = {}
+    for op in spec["ops"]:
+        if op[0] == "upsert_units":
+            for u in op[2]:
+                for w in u["weapons"]:
+                    final_w[(op[1], w[0])] = (w[1], w[2])
     for (sec, uid), u in last.items():
         p = vo.by_name.get(sec.encode(), [None])[0]
         if p is None:
@@ -175,7 +179,31 @@ def c04_oracle(base, spec, out):
                 return f"{sec} unit {uid} {f}: file has {arr[f][uid]}, authored {want}"
         if vo.text(arr["_unit_string_ids"][uid]) != u["name"]:
             return f"{sec} unit {uid} name: file resolves to {vo.text(arr['_unit_string_ids'][uid])!r}, authored {u['name']!r}"
+        for w, _d, _u in u["weapons"]:
+            dmg, upg = final_w[(sec, w)]
+            have = (arr["_unit_base_weapon_damages"][w], arr["_unit_upgrade_weapon_damages"][w])
+            if have != (dmg, upg):
+                carriers = [x for x, ws in _unit_weapons().items() if w in ws]
+                if len(carriers) > 1:
+                    # recorded finding: the weapon sits in the settings of several units; the copy held by a unit later
+                    # in the section (customised in the base map or by an earlier step) is written last
+                    if keys is not None:
+                        keys.add("shared-weapon-stale-copy")
+                    continue
+                return f"{sec} unit {uid} weapon {w}: file has damage/upgrade {have}, authored {(dmg, upg)}"
     return None
+
+
+_UW = None
+
+
+def _unit_weapons():
+    global _UW
+    if _UW is None:
+        from richchk.model.richchk.unis.unit_id import UnitId
+        from richchk.model.richchk.unis.unit_to_weapon_lookup import get_weapons_for_unit
+        _UW = {u.id: [w.id for w in get_weapons_for_unit(u)] for u in UnitId}
+    return _UW
 
 
 def weapons_consistent(base, spec):
